@@ -395,10 +395,14 @@ Section Track.
     apply tracks_catch; [|apply tracks_ret]. apply tracks_bind_getinfo. intro a. apply tracks_ret.
   Qed.
 
+  (* scandir of p is the embedded tree's scandir of q (true under a mount; on the default tree only when
+     nothing is replaced, see mount_isempty_default) *)
+  Hypothesis Hsc : tracks (mount_scandir p) (mem_scandir q).
+
   Lemma tracks_isempty : tracks (b_isempty mount_low p) (mem_isempty q).
   Proof.
-    unfold mem_isempty, b_isempty. cbn [l_scandir mount_low mem_low]. unfold mount_scandir.
-    apply tracks_bind; [apply Hr|]. intro a. apply tracks_ret.
+    unfold mem_isempty, b_isempty. cbn [l_scandir mount_low mem_low].
+    apply tracks_bind; [apply Hsc|]. intro a. apply tracks_ret.
   Qed.
 
   Lemma tracks_openwrite mode d : mode_valid_bin mode = true ->
@@ -431,18 +435,23 @@ End Track.
 Definition mount_derived (o : op) : option str :=
   match o with OExists p | OIsempty p | OCreate p _ | OTouch p | OAppendbytes p _ => Some p | _ => None end.
 
+(* the derived calls that do not list a directory (isempty does: b_isempty calls scandir) *)
+Definition mount_derived_noscan (o : op) : bool :=
+  match o with OIsempty _ => false | _ => true end.
+
 Lemma tracks_derived E o p q g : mount_derived o = Some p ->
   (forall A (f : str -> MM A), tracks E (route p f) (f q)) ->
   tracks E (mount_getinfo p) (x <- mem_getinfo q ;; ret (g x)) ->
+  (mount_derived_noscan o = false -> tracks E (mount_scandir p) (mem_scandir q)) ->
   tracks E (mount_run o) (mem_run (with_path o q)).
 Proof.
-  intros Hd Hr Hgi. destruct o; cbn [mount_derived] in Hd; try discriminate Hd; injection Hd as Hd; subst;
+  intros Hd Hr Hgi Hsc. destruct o; cbn [mount_derived] in Hd; try discriminate Hd; injection Hd as Hd; subst;
     cbn [mount_run mem_run with_path]; apply tracks_vmap.
   - apply tracks_appendbytes; exact Hr.
   - apply (tracks_create _ _ _ Hr g Hgi).
   - apply (tracks_touch _ _ _ Hr g Hgi).
   - apply (tracks_exists _ _ _ g Hgi).
-  - apply tracks_isempty; exact Hr.
+  - apply tracks_isempty. apply Hsc. reflexivity.
 Qed.
 
 (* the embedding of member i *)
@@ -498,6 +507,15 @@ Proof.
   apply (on_mount_emb _ _ _ _ _ _ Hn).
 Qed.
 
+(* scandir under member i's embedding: the member's own scandir *)
+Lemma tracks_scandir_member st0 i c t0 p rel : nth_error (t_mounts st0) i = Some (c, t0) ->
+  mount_delegate (mounts_of st0) p = Ok (Some (i, rel)) ->
+  tracks (emb_mount st0 i c) (mount_scandir p) (mem_scandir rel).
+Proof.
+  intros Hn H t. unfold mount_scandir. rewrite (emb_mount_keys _ _ _ _ _ Hn). rewrite H.
+  apply (on_mount_emb _ _ _ _ _ _ Hn).
+Qed.
+
 Lemma tracks_on_mount {A} st i (Mx : M tstate A) (m : MM A) :
   i < length (t_mounts st) ->
   (forall c t0, nth_error (t_mounts st) i = Some (c, t0) -> tracks (emb_mount st i c) Mx m) ->
@@ -517,6 +535,7 @@ Proof.
   intros c t0 Hn. apply (tracks_derived _ o p rel (mount_point_name p rel) Hd).
   - apply (tracks_route_member _ _ _ _ _ _ Hn H).
   - apply (tracks_getinfo_member _ _ _ _ _ _ Hn H).
+  - intros _. apply (tracks_scandir_member _ _ _ _ _ _ Hn H).
 Qed.
 Print Assumptions mount_delegation_derived.
 
@@ -549,15 +568,165 @@ Qed.
 Lemma with_path_derived o p : mount_derived o = Some p -> with_path o p = o.
 Proof. destruct o; cbn; intro H; try discriminate H; injection H as H; subst; reflexivity. Qed.
 
-Theorem mount_default_derived : forall o p st, mount_derived o = Some p -> mount_delegate (mounts_of st) p = Ok None ->
+(* the statement as it was (all five calls) is false for isempty: the default tree has a directory "..", "/../" is
+   a mount point: the listing of "/" asks getinfo("/.."), which is refused; the default tree's own isempty says False *)
+Example mount_default_derived_ce :
+  let dd := [46%N; 46%N] in (* ".." *)
+  let st := {| t_default := Dir [(dd, Dir [] None)] None; t_mounts := [([slash] ++ dd ++ [slash], Dir [] None)] |} in
+  (mount_derived (OIsempty [slash]), mount_delegate (mounts_of st) [slash],
+   snd (mount_run (OIsempty [slash]) st), snd (on_default (mem_run (OIsempty [slash])) st))
+  = (Some [slash], Ok None, Err IllegalBackReference, Ok (VBool false)).
+Proof. vm_compute. reflexivity. Qed.
+
+(* STATEMENT CHANGED: since MountFS.scandir replaces the mount points of a default-tree listing by self.getinfo
+   (/repo 75d0617), isempty on the default tree goes through scan_mount_points: the statement holds for the four
+   calls that do not list (mount_derived_noscan o = true: exists, create, touch, appendbytes); for isempty the exact
+   rule is mount_isempty_default below, and the old statement is false (mount_default_derived_ce) *)
+Theorem mount_default_derived : forall o p st, mount_derived o = Some p -> mount_derived_noscan o = true ->
+  mount_delegate (mounts_of st) p = Ok None ->
   mount_run o st = on_default (mem_run o) st.
 Proof.
-  intros o p st Hd H. apply tracks_on_default.
+  intros o p st Hd Hns H. apply tracks_on_default.
   rewrite <- (with_path_derived o p Hd) at 2. apply (tracks_derived _ o p p (fun y => y) Hd).
   - apply (tracks_route_default _ _ H).
   - apply (tracks_getinfo_default _ _ H).
+  - intro F. rewrite F in Hns. discriminate Hns.
 Qed.
 Print Assumptions mount_default_derived.
+
+(* ------------------------------------------------------------------ *)
+(* scandir (/repo 75d0617): the mount points of a default-tree listing  *)
+(* are reported as getinfo reports them                                 *)
+(* ------------------------------------------------------------------ *)
+(* pure form of _scan_mount_points *)
+Definition point_info (st : tstate) (d : str) (i : info) : outcome info :=
+  if i_isdir i && is_mount_key st (forcedir (d ++ i_name i)) then snd (mount_getinfo (d ++ i_name i) st) else Ok i.
+
+Fixpoint replace_points (st : tstate) (d : str) (l : list info) : outcome (list info) :=
+  match l with
+  | [] => Ok []
+  | i :: r => match point_info st d i with
+              | Ok x => match replace_points st d r with Ok xs => Ok (x :: xs) | Err e => Err e | Crash k => Crash k end
+              | Err e => Err e
+              | Crash k => Crash k
+              end
+  end.
+
+Definition default_listing (st : tstate) (p d : str) : outcome (list info) :=
+  match snd (mem_scandir p (t_default st)) with
+  | Ok infos => match t_mounts st with [] => Ok infos | _ => replace_points st d infos end
+  | Err e => Err e
+  | Crash k => Crash k
+  end.
+
+Lemma mem_scandir_state q s : fst (mem_scandir q s) = s.
+Proof.
+  destruct (rpath q) as [cs|adm] eqn:R.
+  - rewrite (mem_scandir_spec _ _ s R). reflexivity.
+  - rewrite (mem_scandir_bad _ _ s R). reflexivity.
+Qed.
+
+Lemma on_default_same {A} (m : MM A) st : fst (m (t_default st)) = t_default st ->
+  on_default m st = (st, snd (m (t_default st))).
+Proof.
+  intro H. unfold on_default. destruct (m (t_default st)) as [t' o]. cbn [fst snd] in *. subst t'.
+  rewrite tstate_eta. reflexivity.
+Qed.
+
+Lemma on_mount_same {A} i (m : MM A) st : (forall t, fst (m t) = t) ->
+  on_mount i m st = (st, snd (on_mount i m st)).
+Proof.
+  intro H. unfold on_mount, on_nth. destruct (nth_error (t_mounts st) i) as [[c t]|] eqn:E.
+  - specialize (H t). destruct (m t) as [t' o]. cbn [fst snd] in *. subst t'.
+    rewrite (set_nth_same _ _ _ E). rewrite tstate_eta. reflexivity.
+  - cbn [snd]. rewrite tstate_eta. reflexivity.
+Qed.
+
+(* getinfo changes no state *)
+Lemma mount_getinfo_same q st : mount_getinfo q st = (st, snd (mount_getinfo q st)).
+Proof.
+  unfold mount_getinfo. destruct (mount_delegate (mounts_of st) q) as [[[i rel]|]|e|k]; try reflexivity.
+  - apply on_mount_same. intro t. unfold mbind, ret. pose proof (mem_getinfo_state rel t) as G.
+    destruct (mem_getinfo rel t) as [t' [a|e|k]]; exact G.
+  - rewrite (on_default_same _ _ (mem_getinfo_state q _)). reflexivity.
+Qed.
+
+(* _scan_mount_points on a state that no step changes *)
+Lemma scan_mount_points_replace st d l :
+  scan_mount_points mount_getinfo d l st = (st, replace_points st d l).
+Proof.
+  induction l as [|i r IH]; [reflexivity|].
+  cbn [scan_mount_points replace_points]. unfold point_info. unfold mbind at 1.
+  destruct (i_isdir i && is_mount_key st (forcedir (d ++ i_name i))).
+  - rewrite (mount_getinfo_same (d ++ i_name i) st). cbn [snd].
+    destruct (snd (mount_getinfo (d ++ i_name i) st)) as [x|e|k]; try reflexivity.
+    unfold mbind. rewrite IH. destruct (replace_points st d r); reflexivity.
+  - unfold mbind. rewrite IH. destruct (replace_points st d r); reflexivity.
+Qed.
+
+Lemma mount_scandir_default_eq p st d : mount_delegate (mounts_of st) p = Ok None -> mount_key p = Ok d ->
+  mount_scandir p st = (st, default_listing st p d).
+Proof.
+  intros H Hk. unfold mount_scandir, default_listing. rewrite H.
+  destruct (t_mounts st) as [|m ms] eqn:Em.
+  - rewrite (on_default_same _ _ (mem_scandir_state p _)).
+    destruct (snd (mem_scandir p (t_default st))); reflexivity.
+  - cbv beta iota. unfold mbind at 1. unfold lift. rewrite Hk. unfold mbind.
+    rewrite (on_default_same _ _ (mem_scandir_state p _)).
+    destruct (snd (mem_scandir p (t_default st))) as [infos|e|k]; try reflexivity.
+    rewrite scan_mount_points_replace. reflexivity.
+Qed.
+
+Theorem mount_scandir_member : forall p st i rel, mount_delegate (mounts_of st) p = Ok (Some (i, rel)) ->
+  mount_run (OScandir p) st = on_mount i (mem_run (OScandir rel)) st.
+Proof.
+  intros p st i rel H. cbn [mount_run mem_run]. rewrite <- vmap_on_mount.
+  unfold vmap, mbind. unfold mount_scandir. rewrite H. reflexivity.
+Qed.
+Print Assumptions mount_scandir_member.
+
+Theorem mount_scandir_default : forall p st d, mount_delegate (mounts_of st) p = Ok None -> mount_key p = Ok d ->
+  mount_run (OScandir p) st = (st, omap VInfos (default_listing st p d)).
+Proof.
+  intros p st d H Hk. cbn [mount_run]. unfold vmap, mbind, ret.
+  rewrite (mount_scandir_default_eq p st d H Hk). destruct (default_listing st p d); reflexivity.
+Qed.
+Print Assumptions mount_scandir_default.
+
+Theorem mount_scandir_bad_path : forall p st e, mount_delegate (mounts_of st) p = Err e -> mount_run (OScandir p) st = (st, Err e).
+Proof.
+  intros p st e H. cbn [mount_run]. unfold vmap, mbind, mount_scandir. rewrite H. reflexivity.
+Qed.
+Print Assumptions mount_scandir_bad_path.
+
+Theorem mount_isempty_default : forall p st d, mount_delegate (mounts_of st) p = Ok None -> mount_key p = Ok d ->
+  mount_run (OIsempty p) st = (st, omap (fun l => VBool (match l with [] => true | _ => false end)) (default_listing st p d)).
+Proof.
+  intros p st d H Hk. cbn [mount_run]. unfold b_isempty. cbn [l_scandir mount_low]. unfold vmap, mbind, ret.
+  rewrite (mount_scandir_default_eq p st d H Hk). destruct (default_listing st p d) as [[|x l]|e|k]; reflexivity.
+Qed.
+Print Assumptions mount_isempty_default.
+
+(* scandir agrees with getinfo: entries that are no mount points are the default tree's own entries *)
+Theorem mount_scandir_plain_entry : forall st d i, (i_isdir i && is_mount_key st (forcedir (d ++ i_name i))) = false -> point_info st d i = Ok i.
+Proof. intros st d i H. unfold point_info. rewrite H. reflexivity. Qed.
+Print Assumptions mount_scandir_plain_entry.
+
+(* ... and an entry that is a mount point is what getinfo says of it *)
+Theorem mount_scandir_point_entry : forall st d i, (i_isdir i && is_mount_key st (forcedir (d ++ i_name i))) = true ->
+  omap VInfo (point_info st d i) = snd (mount_run (OGetinfo (d ++ i_name i)) st).
+Proof.
+  intros st d i H. unfold point_info. rewrite H. cbn [mount_run]. unfold vmap, mbind, ret.
+  rewrite (mount_getinfo_same (d ++ i_name i) st). cbn [snd].
+  destruct (snd (mount_getinfo (d ++ i_name i) st)); reflexivity.
+Qed.
+Print Assumptions mount_scandir_point_entry.
+
+(* a delegation to the default tree has a mount key *)
+Lemma mount_delegate_none_key ms p : mount_delegate ms p = Ok None -> exists d, mount_key p = Ok d.
+Proof.
+  unfold mount_delegate. destruct (mount_key p) as [d|e|k]; intro H; try discriminate H. exists d. reflexivity.
+Qed.
 
 (* ------------------------------------------------------------------ *)
 (* D9: copy inside one member                                          *)
@@ -925,3 +1094,85 @@ Example mount_copy_within_thm_ex :
   mount_run (OCopy (p "/a/x") (p "/a/s/c") false false) ex_mount
   = on_mount 0 (mem_run (OCopy (p "x") (p "s/c") false false)) ex_mount.
 Proof. apply mount_copy_within; vm_compute; try reflexivity. lia. Qed.
+
+(* ------------------------------------------------------------------ *)
+(* scandir: mount points are reported as getinfo reports them          *)
+(* ------------------------------------------------------------------ *)
+Definition xinfo (n : string) (d : bool) (sz : nat) (mt : option Z) : info :=
+  {| i_name := p n; i_isdir := d; i_size := sz; i_mt := mt |}.
+
+(* "/" of ex_mount: "a" and "ab" are the mounted roots under the mount points' names, "c" and "own" the default tree's own *)
+Example mount_scandir_root_ex :
+  mount_run (OScandir (p "/")) ex_mount
+  = (ex_mount, Ok (VInfos [xinfo "a" true 0 None; xinfo "ab" true 0 None; xinfo "c" true 0 None; xinfo "own" false 3 None])).
+Proof. vm_compute. reflexivity. Qed.
+
+Example mount_scandir_root_getinfo_ex :
+  (snd (mount_run (OGetinfo (p "/a")) ex_mount), snd (mount_run (OGetinfo (p "/ab")) ex_mount),
+   point_info ex_mount (p "/") (xinfo "a" true 0 None), point_info ex_mount (p "/") (xinfo "ab" true 0 None))
+  = (Ok (VInfo (xinfo "a" true 0 None)), Ok (VInfo (xinfo "ab" true 0 None)),
+     Ok (xinfo "a" true 0 None), Ok (xinfo "ab" true 0 None)).
+Proof. vm_compute. reflexivity. Qed.
+
+(* the same through the theorems *)
+Example mount_scandir_default_ex :
+  mount_run (OScandir (p "/")) ex_mount = (ex_mount, omap VInfos (default_listing ex_mount (p "/") (p "/")))
+  /\ default_listing ex_mount (p "/") (p "/")
+     = Ok [xinfo "a" true 0 None; xinfo "ab" true 0 None; xinfo "c" true 0 None; xinfo "own" false 3 None].
+Proof. split; [apply mount_scandir_default|]; vm_compute; reflexivity. Qed.
+
+(* "c" is a directory but "/c/" is no mount key, "own" is a file: both are the default tree's own entries *)
+Example mount_scandir_plain_entry_ex :
+  point_info ex_mount (p "/") (xinfo "c" true 0 None) = Ok (xinfo "c" true 0 None)
+  /\ point_info ex_mount (p "/") (xinfo "own" false 3 None) = Ok (xinfo "own" false 3 None).
+Proof. split; apply mount_scandir_plain_entry; vm_compute; reflexivity. Qed.
+
+Example mount_scandir_point_entry_ex :
+  omap VInfo (point_info ex_mount (p "/") (xinfo "a" true 0 None)) = snd (mount_run (OGetinfo (p "/a")) ex_mount).
+Proof. apply (mount_scandir_point_entry ex_mount (p "/") (xinfo "a" true 0 None)). vm_compute. reflexivity. Qed.
+
+(* "/c" lists the mount point "d" as getinfo("/c/d") reports it *)
+Example mount_scandir_c_ex :
+  (mount_delegate (mounts_of ex_mount) (p "/c"), mount_key (p "/c"),
+   mount_run (OScandir (p "/c")) ex_mount, snd (mount_run (OGetinfo (p "/c/d")) ex_mount))
+  = (Ok None, Ok (p "/c/"), (ex_mount, Ok (VInfos [xinfo "d" true 0 None])), Ok (VInfo (xinfo "d" true 0 None))).
+Proof. vm_compute. reflexivity. Qed.
+
+(* the replacement made visible: the root mounted on "/a" carries a modification time, the placeholder directory "a"
+   of the default tree has none: the listing of "/" reports the mounted root's time, as getinfo("/a") does *)
+Definition ex_mount_mt : tstate :=
+  {| t_default := t_default ex_mount;
+     t_mounts := [(p "/a/", Dir [(p "x", xf "in-a")] (Some 9%Z)); (p "/ab/", xd [("x", xf "in-ab")]); (p "/c/d/", xd [])] |}.
+
+Example mount_scandir_visible_ex :
+  (snd (mem_run (OScandir (p "/")) (t_default ex_mount_mt)),
+   mount_run (OScandir (p "/")) ex_mount_mt,
+   snd (mount_run (OGetinfo (p "/a")) ex_mount_mt))
+  = (Ok (VInfos [xinfo "a" true 0 None; xinfo "ab" true 0 None; xinfo "c" true 0 None; xinfo "own" false 3 None]),
+     (ex_mount_mt, Ok (VInfos [xinfo "a" true 0 (Some 9%Z); xinfo "ab" true 0 None; xinfo "c" true 0 None; xinfo "own" false 3 None])),
+     Ok (VInfo (xinfo "a" true 0 (Some 9%Z)))).
+Proof. vm_compute. reflexivity. Qed.
+
+(* under a mount point the listing is the member's own *)
+Example mount_scandir_member_ex :
+  mount_run (OScandir (p "/a")) ex_mount = on_mount 0 (mem_run (OScandir [])) ex_mount
+  /\ snd (mount_run (OScandir (p "/a")) ex_mount) = Ok (VInfos [xinfo "x" false 4 None; xinfo "s" true 0 None]).
+Proof. split; [apply mount_scandir_member|]; vm_compute; reflexivity. Qed.
+
+Example mount_scandir_bad_path_ex :
+  mount_run (OScandir (p "/a/../..")) ex_mount = (ex_mount, Err IllegalBackReference).
+Proof. apply mount_scandir_bad_path. vm_compute. reflexivity. Qed.
+
+(* isempty on the default tree: through the replaced listing *)
+Example mount_isempty_default_ex :
+  mount_run (OIsempty (p "/c")) ex_mount
+  = (ex_mount, omap (fun l => VBool (match l with [] => true | _ => false end)) (default_listing ex_mount (p "/c") (p "/c/")))
+  /\ snd (mount_run (OIsempty (p "/c")) ex_mount) = Ok (VBool false)
+  /\ snd (mount_run (OIsempty (p "own")) ex_mount) = Err DirectoryExpected.
+Proof. split; [apply mount_isempty_default|split]; vm_compute; reflexivity. Qed.
+
+(* the four derived calls that do not list, on the default tree *)
+Example mount_default_derived_ex :
+  mount_run (OExists (p "own")) ex_mount = on_default (mem_run (OExists (p "own"))) ex_mount
+  /\ mount_run (OTouch (p "/c/new")) ex_mount = on_default (mem_run (OTouch (p "/c/new"))) ex_mount.
+Proof. split; [apply (mount_default_derived _ (p "own"))|apply (mount_default_derived _ (p "/c/new"))]; vm_compute; reflexivity. Qed.
